@@ -275,6 +275,13 @@ func (w *Worker) runC05Switch(rc *simapi.RunConfig) *simapi.RunResult {
 		res.Violations = append(res.Violations, simapi.Violation{Class: "init-error", Identity: "init-error", Detail: cal.InitErr})
 		return res
 	}
+	if !cal.Attributed {
+		// without the library-level hook there is no point "after configuration, before the
+		// first checker" at which to take the registry baseline
+		res.Verdict = "skip"
+		res.Notes = append(res.Notes, "linter.(*Context).SetPackageInfo not found in this tree: switch-point fingerprints not applied")
+		return res
+	}
 	if len(v.CPFrac) > 0 {
 		resolve(v, cal.Sched.Steps)
 	}
